@@ -131,7 +131,11 @@ def bash_glob_sets(items, subjects, *, nocase=False, dotglob=False, globstar=Fal
                "shopt -%s nocaseglob" % ("s" if nocase else "u"), "shopt -%s dotglob" % ("s" if dotglob else "u"),
                "shopt -%s globstar" % ("s" if globstar else "u"), "shopt -%s extglob" % ("s" if extglob else "u"),
                "m() { local IFS=; local -a r; r=($1); printf '%s\\n' \"${r[@]}\"; }"]
-        todo = [i for i, (p, _) in enumerate(items) if not (p.startswith("/") or ".." in p)]
+        # no oracle where pathname expansion is not string matching: patterns that leave the tree (leading
+        # "/", ".."), empty path components ("//": bash collapses them), a quoted slash ("\\/": bash finds
+        # nothing), and a globstar after a directory part ("x/**": bash prints the zero-directory case as "x")
+        todo = [i for i, (p, _) in enumerate(items)
+                if not (p.startswith("/") or ".." in p or "//" in p or "\\/" in p or (globstar and "/**" in p))]
         res = vlib.run_shell_evals(["m " + q(items[i][0]) for i in todo], prelude="\n".join(pre), locale="C.utf8",
                                    per_process=4000, jobs=4)
         out = [None] * len(items)
@@ -492,3 +496,6 @@ def replay(ck, rec, prop):
     v = dict(rec["vector"])
     subjects_raw = {v["fam"]: v.pop("subjects")}
     evaluate(ck, h, [v], subjects_raw)
+    for d in ck.drifts:     # the code and bash agree with each other but not with the recorded expectation
+        print("SPEC-DRIFT property=%s pattern=%s mode=%s spec=%s impl=bash=%s" % (
+            prop, json.dumps(d.get("pattern")), d.get("mode"), d["spec"]["matches"][:8], d["impl"].get("matches", [])[:8]))
